@@ -9,6 +9,7 @@ import json
 import logging
 import os
 import shutil
+import stat
 from copy import deepcopy
 from threading import RLock
 from types import MappingProxyType
@@ -805,10 +806,11 @@ class Job:
                 if fn in (self.FN_STATE_POINT, self.FN_DOCUMENT):
                     continue
                 path = os.path.join(self.path, fn)
-                if os.path.isfile(path):
-                    os.remove(path)
-                elif os.path.isdir(path):
+                # lstat, unlike isfile/isdir, does not read an I/O error as 'not there'.
+                if stat.S_ISDIR(os.lstat(path).st_mode):
                     shutil.rmtree(path)
+                else:
+                    os.remove(path)
             self.document.clear()
         except OSError as error:
             if error.errno != errno.ENOENT:
